@@ -415,21 +415,16 @@ pub fn run_plan(plan: &ChurnPlan, mut r: Rng, sink_side_only: bool) -> ChurnOutc
                 }
             },
             3 => {
-                // an attached sink pulls: upstream hears exactly one Pull
-                let cur = match up.last() {
-                    Some(c) if up_live => c,
-                    _ => continue,
-                };
+                // an attached sink pulls (exercised, not judged: C12 says nothing about how share
+                // relays Pulls, and an implementation that coalesced them would be just as right)
+                if !up_live {
+                    continue;
+                }
                 let s = &attached[r.below(attached.len())];
-                let before = cur.pulls.load(Ordering::SeqCst);
                 note(&mut tail, format!("S{} pulls", s.id));
                 let tb = s.talkbacks.lock().unwrap().last().cloned();
                 if let Some(tb) = tb {
                     tb(Message::Pull);
-                }
-                let got = cur.pulls.load(Ordering::SeqCst) - before;
-                if got != 1 {
-                    fail!("churn-pull-not-relayed-once", "S{} sent one Pull, upstream received {}", s.id, got);
                 }
             },
             _ => {
